@@ -1019,8 +1019,46 @@ def canon_seq(t):
             return t
     s = as_seq(t)
     if s is None:
-        return t
+        return _canon_expanded(t)
     return mk_seq(*s)
+
+
+def _pure_newaxis(idx):
+    """an index made only of None and full slices: it adds axes, it selects nothing"""
+    ia = idx.single_atom()
+    items = list(ia.args) if (ia is not None and ia.kind == 'tuple') else [idx]
+    for x in items:
+        xa = x.single_atom()
+        if _isnone(x):
+            continue
+        if xa is not None and xa.kind == 'slice' and all(_isnone(y) or (k_ == 0 and y.const() == 0) for k_, y in enumerate(xa.args)):
+            continue
+        return False
+    return True
+
+
+def _canon_expanded(t):
+    """A + B*S[newaxis-index], S affine in one sequence  ==  (A + B*S)[newaxis-index]: arithmetic with scalars commutes
+    with adding axes, so `(t_idx + 1)[None, :]` and `t_idx[None, :] + 1` have one normal form."""
+    subs = [a for a in t.atoms() if a.kind == 'sub' and _pure_newaxis(a.args[1]) and as_seq(a.args[0]) is not None]
+    if len(subs) != 1:
+        return t
+    sa = subs[0]
+    A, B = Term(), Term()
+    for m, c in t.p.items():
+        exps = [e for a, e in m if a == sa]
+        if not exps:
+            A = A + Term({m: c})
+        elif exps == [1]:
+            B = B + Term({tuple((a, e) for a, e in m if a != sa): c})
+        else:
+            return t
+    # A and B must be scalars (no array atoms): only then does the arithmetic commute with the reshape
+    for x in list(all_atoms(A).values()) + list(all_atoms(B).values()):
+        if x.kind in ('seq', 'sub') and x is not sa and x.kind == 'seq':
+            return t
+    inner = canon_seq(A + B * sa.args[0])
+    return Term.of(Atom('sub', inner, sa.args[1]))
 
 
 def canon(t):
